@@ -132,11 +132,13 @@ class AbstractContainer(abstract.GeomdlBase):
 
         :getter: Gets the evaluated points of all contained geometries
         """
-        if not self._cache['evalpts']:
-            for elem in self._elements:
-                elem.delta = self._delta[0] if self._pdim == 1 else self._delta
-                evalpts = elem.evalpts
-                self._cache['evalpts'] += evalpts
+        # The elements keep their own evaluated points and may have been edited since the last call:
+        # always collect from them
+        evalpts = []
+        for elem in self._elements:
+            elem.delta = self._delta[0] if self._pdim == 1 else self._delta
+            evalpts += elem.evalpts
+        self._cache['evalpts'] = evalpts
         return self._cache['evalpts']
 
     @property
@@ -639,7 +641,7 @@ class SurfaceContainer(AbstractContainer):
 
         :getter: Gets the vertices
         """
-        if not self._cache['vertices']:
+        if not self._tessellation_is_current():
             self.tessellate()
         return self._cache['vertices']
 
@@ -651,9 +653,18 @@ class SurfaceContainer(AbstractContainer):
 
         :getter: Gets the faces
         """
-        if not self._cache['faces']:
+        if not self._tessellation_is_current():
             self.tessellate()
         return self._cache['faces']
+
+    def _tessellation_is_current(self):
+        """ Checks if the cached vertices and faces still belong to the tessellations of the elements.
+
+        An element that has been edited since the last tessellation has dropped its own tessellation.
+        """
+        if not all((self._cache['vertices'], self._cache['faces'])):
+            return False
+        return all(elem.tessellator is None or elem.tessellator.is_tessellated() for elem in self._elements)
 
     def tessellate(self, **kwargs):
         """ Tessellates the surfaces inside the container.
@@ -688,7 +699,7 @@ class SurfaceContainer(AbstractContainer):
         update_delta = kwargs.pop('delta', True)
 
         # Don't re-tessellate if everything is in place
-        if all((self._cache['vertices'], self._cache['faces'])) and not force_tsl:
+        if self._tessellation_is_current() and not force_tsl:
             return
 
         # Tessellate the surfaces in the container
